@@ -65,8 +65,9 @@ pub fn gen_tetris(t: &mut Tape) -> raw::LayoutResult<(tetris::library::Library, 
     let mut cells: Vec<(Ptr<tetris::cell::Cell>, i64, i64, usize)> = Vec::new();
     let mut list: PtrList<tetris::cell::Cell> = PtrList::new();
     for ci in 0..ncells {
-        let x = (10 + t.draw(120) as isize) * (ci as isize + 1);
-        let y = (2 + t.draw(8) as isize) * (ci as isize + 1);
+        let big = t.chance(1, 40);
+        let x = if big { 800 + t.draw(400) as isize } else { (10 + t.draw(120) as isize) * (ci as isize + 1) };
+        let y = if big { 100 + t.draw(60) as isize } else { (2 + t.draw(8) as isize) * (ci as isize + 1) };
         let metals = 1 + t.draw(4) as usize;
         if t.chance(1, 5) {
             // an abstract with edge ports
